@@ -811,6 +811,12 @@ fn run_c12(tier: &str, seed: u64, threads: usize, known: &KnownFile) -> RealRepo
         "snippet_kinds": tag_counts,
         "probes_per_snippet": probe_all().lines().count(),
     });
+    // through the real binary
+    let cli = run_c12_real_cli();
+    rep.runs += cli.runs;
+    rep.signatures.extend(cli.signatures);
+    rep.harness_errors.extend(cli.harness_errors);
+    rep.violation_replays.extend(cli.violation_replays);
     // histories that have no single-session reference (errexit in force): stated directly
     let docs = run_real_docs("C12", doc_class("C12"), threads);
     rep.runs += docs.runs;
@@ -1595,8 +1601,9 @@ pub fn replay_real(path: &str, text: &str) -> i32 {
         };
         return match (check_env_case(&c), check_env_case(&c)) {
             (Ok(Some(d1)), Ok(Some(_))) => {
-                println!("violation C18/environment-differs-real: {}", d1);
-                println!("VIOLATION property=C18 replay={}", path);
+                let (prop, class) = if c.carry { ("C12", "state-differs-real") } else { ("C18", "environment-differs-real") };
+                println!("violation {}/{}: {}", prop, class, d1);
+                println!("VIOLATION property={} replay={}", prop, path);
                 1
             }
             (Ok(None), Ok(None)) => {
@@ -1683,6 +1690,20 @@ pub struct EnvCase {
     /// how the documents are named on the command line: "abs" | "rel" | "dotdot"
     #[serde(default)]
     pub path_style: String,
+    /// `--shell <a symbolic link of this name to bash>` (`rbash`, `sh`: names under which bash
+    /// behaves differently - scrut starts the shell the link points to)
+    #[serde(default)]
+    pub shell_link: Option<String>,
+    /// `--log-level <level>`
+    #[serde(default)]
+    pub log_level: Option<String>,
+    /// this test case (Markdown only) is a detached `true`
+    #[serde(default)]
+    pub detached_at: Option<usize>,
+    /// judge what C12 says (the state set by test case `state_change_at` is found by every later
+    /// one) instead of what C18 says
+    #[serde(default)]
+    pub carry: bool,
 }
 
 const ENV_PROBE_VARS: &[&str] = &["SCRUT_TEST", "TESTDIR", "TESTFILE", "TESTSHELL", "TMPDIR", "LANG", "LANGUAGE", "LC_ALL", "TZ", "COLUMNS", "CDPATH", "GREP_OPTIONS"];
@@ -1696,6 +1717,7 @@ fn env_probe_cmd(out: &Path, extra: &str) -> String {
     for v in ENV_PROBE_VARS {
         s.push_str(&format!("echo \"env:{}=$(printenv {} || echo '<not in environment>')\"; ", v, v));
     }
+    s.push_str("echo \"VS_USER=${VS_USER-<unset>}\"; echo \"VS_FN=$(type -t vs_fn)\"; ");
     s.push_str("echo \"PWD=$(pwd -P)\"; [ -d \"$TMPDIR\" ] && echo TMPDIR_IS_DIR=1; ");
     s.push_str(&format!("}} > '{}' 2>&1{}", out.display(), extra));
     s
@@ -1746,6 +1768,15 @@ fn check_env_case(c: &EnvCase) -> Result<Option<String>, String> {
                 ""
             };
             let cmd = env_probe_cmd(&out, extra);
+            if md && c.detached_at == Some(k) {
+                lines.push(format!("## test {} (detached)", k));
+                lines.push(String::new());
+                lines.push("```scrut {detached: true}".into());
+                lines.push("$ true".into());
+                lines.push("```".into());
+                lines.push(String::new());
+                continue;
+            }
             if md {
                 lines.push(format!("## test {}", k));
                 lines.push(String::new());
@@ -1775,6 +1806,15 @@ fn check_env_case(c: &EnvCase) -> Result<Option<String>, String> {
             cmd.arg("--keep-temporary-directories");
         }
         _ => {}
+    }
+    if let Some(name) = &c.shell_link {
+        let dir = base.join("shells");
+        std::fs::create_dir_all(&dir).map_err(|e| e.to_string())?;
+        let _ = std::os::unix::fs::symlink("/bin/bash", dir.join(name));
+        cmd.arg("--shell").arg(dir.join(name));
+    }
+    if let Some(l) = &c.log_level {
+        cmd.arg("--log-level").arg(l);
     }
     // the documents as named on the command line (scrut runs in `base`)
     let given: Vec<String> = docs
@@ -1821,6 +1861,19 @@ fn check_env_case(c: &EnvCase) -> Result<Option<String>, String> {
             };
             let got: BTreeMap<&str, &str> = text.lines().filter_map(|l| l.split_once('=')).collect();
             let g = |k: &str| got.get(k).copied().unwrap_or("<no line>");
+            if c.carry {
+                // C12 through the real binary: what the state-changing test case set is found
+                // by every later one of its document
+                if let Some(at) = c.state_change_at {
+                    if k > at && (g("VS_USER") != "carried" || g("VS_FN") != "function") {
+                        wrong.push(format!(
+                            "document {} probing test case #{}: finds VS_USER={:?} and vs_fn {:?}; test case #{} had set VS_USER=carried and defined the function",
+                            d, k, g("VS_USER"), g("VS_FN"), at
+                        ));
+                    }
+                }
+                continue;
+            }
             let mut want: Vec<(&str, String)> = vec![
                 ("TESTFILE", fname.to_string()),
                 ("LANG", "C".into()),
@@ -1893,7 +1946,11 @@ fn check_env_case(c: &EnvCase) -> Result<Option<String>, String> {
     // nothing appears next to the directories of this case either (a path that got expanded)
     let mut beside = left(&base);
     let tmp_name = tmp.file_name().map(|n| n.to_string_lossy().to_string()).unwrap_or_default();
-    beside.retain(|e| e != &tmp_name && e != "probes" && e != "work" && e != "docs");
+    beside.retain(|e| e != &tmp_name && e != "probes" && e != "work" && e != "docs" && e != "shells");
+    if c.carry {
+        // (the directories are C18's business)
+        return if wrong.is_empty() { Ok(None) } else { Ok(Some(normalise(wrong.join("; ").as_bytes(), &base))) };
+    }
     if !beside.is_empty() {
         wrong.push(format!("after exit there is something new next to the temporary directory: {:?}", beside));
     }
@@ -1933,11 +1990,45 @@ fn run_c18_real_env(_tier: &str) -> RealReport {
             for n_docs in [1usize, 2, 3] {
                 for (n_tests, sc) in [(1usize, None), (3, None), (3, Some(0)), (4, Some(1))] {
                     let path_style = ["abs", "rel", "dotdot"][(n_docs + n_tests + sc.unwrap_or(2)) % 3];
-                    cases.push(EnvCase { real_env: true, format: format.into(), dirmode: dirmode.into(), n_docs, n_tests, state_change_at: sc, path_style: path_style.into() });
+                    cases.push(EnvCase { real_env: true, format: format.into(), dirmode: dirmode.into(), n_docs, n_tests, state_change_at: sc, path_style: path_style.into(), shell_link: None, log_level: None, detached_at: None, carry: false });
                 }
             }
         }
     }
+    // the shell given as a symbolic link whose NAME would change how bash behaves; scrut at work
+    // with verbose logging
+    for (link, level) in [(Some("rbash"), None), (Some("sh"), None), (None, Some("debug")), (Some("rbash"), Some("trace"))] {
+        for format in ["md", "cram"] {
+            cases.push(EnvCase { real_env: true, format: format.into(), dirmode: "tmp".into(), n_docs: 2, n_tests: 3, state_change_at: Some(0), path_style: "abs".into(), shell_link: link.map(|x: &str| x.to_string()), log_level: level.map(|x: &str| x.to_string()), detached_at: None, carry: false });
+        }
+    }
+    run_env_cases("C18", "environment-differs-real", cases)
+}
+
+/// C12 through the real binary (the histories drive the library): state set by one test case is
+/// found by the later ones whatever scrut logs, whatever the shell is called, with a detached test
+/// case in between
+fn run_c12_real_cli() -> RealReport {
+    let mut cases = vec![];
+    for dirmode in ["tmp", "work"] {
+        for (link, level, detached) in [
+            (None, None, None),
+            (None, Some("debug"), None),
+            (None, Some("trace"), None),
+            (None, None, Some(1usize)),
+            (None, Some("debug"), Some(1)),
+            (None, Some("trace"), Some(2)),
+            (Some("rbash"), None, None),
+            (Some("sh"), None, Some(1)),
+        ] {
+            cases.push(EnvCase { real_env: true, format: "md".into(), dirmode: dirmode.into(), n_docs: 1, n_tests: 4, state_change_at: Some(0), path_style: "abs".into(), shell_link: link.map(|x: &str| x.to_string()), log_level: level.map(|x: &str| x.to_string()), detached_at: detached, carry: true });
+        }
+    }
+    run_env_cases("C12", "state-differs-real", cases)
+}
+
+fn run_env_cases(prop: &str, class: &str, cases: Vec<EnvCase>) -> RealReport {
+    let mut rep = RealReport::default();
     let _ = std::fs::create_dir_all(format!("{}/replays", crate::out_dir()));
     let mut reported = 0;
     for c in &cases {
@@ -1975,14 +2066,14 @@ fn run_c18_real_env(_tier: &str) -> RealReport {
                         continue;
                     }
                 };
-                println!("vsim: C18/environment-differs-real - {}", d2);
+                println!("vsim: {}/{} - {}", prop, class, d2);
                 let text = serde_json::to_string_pretty(&best).unwrap();
                 let mut hsh = 0xcbf29ce484222325u64;
                 for ch in text.bytes() {
                     hsh ^= ch as u64;
                     hsh = hsh.wrapping_mul(0x100000001b3);
                 }
-                let path = format!("{}/replays/C18-environment-differs-real-{:08x}.json", crate::out_dir(), hsh as u32);
+                let path = format!("{}/replays/{}-{}-{:08x}.json", crate::out_dir(), prop, class, hsh as u32);
                 if rep.violation_replays.contains(&path) {
                     continue;
                 }
